@@ -79,9 +79,12 @@ theorem view_is_own_bytes (c : Cfg) (hist : List Op) (op : Op) (v : Bytes)
         · split at h
           · cases h
           · injection h with h; exact ⟨2, _, h.symm⟩
+  · injection h with h; exact ⟨0, op.wire.length, by rw [← h]; simp⟩
 
-/-- DoH has no pooled buffer: the body itself is unpacked. -/
-theorem doh_own_bytes (body : Bytes) : recvDoH body = .view body := rfl
+/-- DoH (POST body / GET parameter) after any history on any paths: the body itself is unpacked. -/
+theorem doh_own_bytes (c : Cfg) (hist : List Op) (k : Option Nat) (pre body : Bytes) :
+    (step (run (Server.init c) hist) ⟨.doh, k, pre, body⟩).2 = .view body :=
+  decode_own_bytes c hist ⟨.doh, k, pre, body⟩
 
 /-- A single receive with two arbitrary buffers of the same length (any residue whatsoever). -/
 theorem buffer_contents_irrelevant (p : Path) (b₁ b₂ pre₁ pre₂ wire : Bytes)
@@ -161,6 +164,118 @@ example :
     (step (run (Server.init exCfg) [⟨.upsUdp, none, [], exReplyOld⟩]) ⟨.upsUdp, some 0, [], exReplyShort⟩).2
       = .view exReplyShort := by decide
 
+/-! ## All schedules: reading and decoding are separate events, other requests run in between
+
+`Sys` has buffer identities, a pool and in-flight requests; `accept` records only the slice bounds,
+`serve` decodes from whatever the heap holds when the worker finally runs. -/
+
+/-- **inflight_reject.**  In any reachable state of the concurrent system, a message whose own bytes
+fail the pre-`Unpack` guards is rejected at once with the reason `spec` gives, whichever available
+buffer `sync.Pool` hands out. -/
+theorem inflight_reject (c : Cfg) (before : List Ev) (rid : Nat) (p : Path) (bid : Nat)
+    (pre wire : Bytes) (w : Why)
+    (hfree : ((Sys.init c).run before).pend rid = none)
+    (havail : ((Sys.init c).run before).own p bid = none)
+    (hrej : spec p (c.size p) wire = .reject w) :
+    (((Sys.init c).run before).accept rid p bid pre wire).2 = some (.reject w) := by
+  have hi := sinv_run _ (sinv_init c) before
+  refine accept_reject _ hi rid p bid pre wire hfree havail w ?_
+  rw [run_cfg']; exact hrej
+
+/-- **inflight_own_bytes.**  For every schedule — any events `before`, then the message is read
+into any available pooled buffer, then ANY events of other requests `between` (reads into any
+available buffers on any path, workers of other requests finishing) — the worker of this request
+finally hands to `Unpack` exactly the slice `spec` computes from the message's own bytes. -/
+theorem inflight_own_bytes (c : Cfg) (before between : List Ev) (rid : Nat) (p : Path) (bid : Nat)
+    (pre wire v : Bytes)
+    (hfree : ((Sys.init c).run before).pend rid = none)
+    (havail : ((Sys.init c).run before).own p bid = none)
+    (hview : spec p (c.size p) wire = .view v)
+    (hother : ∀ e ∈ between, e.rid ≠ rid) :
+    (((Sys.init c).run before).accept rid p bid pre wire).2 = none ∧
+    (((((Sys.init c).run before).accept rid p bid pre wire).1.run between).serve rid).2
+      = some (.view v) := by
+  have hi := sinv_run _ (sinv_init c) before
+  have ha := accept_holds _ hi rid p bid pre wire hfree havail v (by rw [run_cfg']; exact hview)
+  refine ⟨ha.1, serve_holds _ rid v ?_⟩
+  exact holds_run _ (sinv_accept _ hi ..) rid v ha.2 between hother
+
+/-- **inflight_equals_fresh.**  Under every schedule the concurrent server decodes the message
+exactly as a freshly started sequential server given nothing but this message. -/
+theorem inflight_equals_fresh (c : Cfg) (before between : List Ev) (rid : Nat) (p : Path) (bid : Nat)
+    (pre pre' wire v : Bytes)
+    (hfree : ((Sys.init c).run before).pend rid = none)
+    (havail : ((Sys.init c).run before).own p bid = none)
+    (hview : (step (Server.init c) ⟨p, none, pre', wire⟩).2 = .view v)
+    (hother : ∀ e ∈ between, e.rid ≠ rid) :
+    (((((Sys.init c).run before).accept rid p bid pre wire).1.run between).serve rid).2
+      = some (step (Server.init c) ⟨p, none, pre', wire⟩).2 := by
+  rw [hview]
+  have : (step (Server.init c) ⟨p, none, pre', wire⟩).2 = spec p (c.size p) wire :=
+    decode_own_bytes c [] ⟨p, none, pre', wire⟩
+  rw [hview] at this
+  exact (inflight_own_bytes c before between rid p bid pre wire v hfree havail this.symm hother).2
+
+/-- Two datagrams for the non-vacuity examples: `victim.` and `other.` questions (UDP, 24 bytes). -/
+def exA : Bytes := exPrev.drop 2
+def exB : Bytes :=
+  [0, 9, 1, 0, 0, 1, 0, 0, 0, 0, 0, 0, 5, 111, 116, 104, 101, 114, 0, 0, 1, 0, 1]
+
+/-- The hypotheses of `inflight_own_bytes` hold in a state with real residue and a real
+interleaving: request 1 is read into the buffer that still holds the `victim.` query, then request 2
+is read (into another buffer: the first is held) and served, then request 1 is decoded. -/
+example :
+    let before : List Ev := [.accept 7 .udp 0 [] exA, .serve 7]
+    let between : List Ev := [.accept 2 .udp 0 [] exA, .accept 2 .udp 1 [] exA, .serve 2]
+    ((Sys.init exCfg).run before).pend 1 = none ∧
+    ((Sys.init exCfg).run before).own .udp 0 = none ∧
+    (((Sys.init exCfg).run before).heap .udp 0).take 24 = exA ∧
+    spec .udp (exCfg.size .udp) exB = .view exB ∧
+    (∀ e ∈ between, e.rid ≠ 1) ∧
+    (((((Sys.init exCfg).run before).accept 1 .udp 0 [] exB).1.run between).serve 1).2
+      = some (.view exB) := by decide
+
+/-- The hypotheses of `inflight_reject` / `inflight_equals_fresh` are satisfiable in a state where
+a buffer really is held by another request (so `havail` excludes something), and the side
+condition of `inflight_equals_fresh` holds for a real datagram. -/
+example :
+    let s := (Sys.init exCfg).run [.accept 7 .udp 0 [] exA]
+    s.own .udp 0 = some 7 ∧ s.pend 1 = none ∧ s.own .udp 1 = none ∧
+    spec .udp (exCfg.size .udp) [1, 2, 3] = .reject .short ∧
+    (s.accept 1 .udp 1 [] [1, 2, 3]).2 = some (.reject .short) ∧
+    (s.accept 1 .udp 0 [] exB).2 = none ∧ (s.accept 1 .udp 0 [] exB).1.pend 1 = none ∧
+    (step (Server.init exCfg) ⟨.udp, none, [], exB⟩).2 = .view exB := by decide
+
+/-- **early_put_counterexample.**  If the buffer went back to the pool when `accept` returns
+(before the worker has decoded it), the next datagram is read into the same buffer and the first
+request is decoded from the second client's bytes. -/
+theorem early_put_counterexample :
+    spec .udp (exCfg.size .udp) exB = .view exB ∧
+    ((((Sys.init exCfg).acceptEarlyPut 1 .udp 0 [] exB).1.runEarly
+        [.accept 2 .udp 0 [] exA]).serve 1).2 = some (.view (exA.take 23)) ∧
+    exA.take 23 ≠ exB := by decide
+
+/-! ## Response side: the bytes written are the packed response, whatever the pooled array held -/
+
+/-- **resp_udp_own_bytes.**  `b := resp.PackBuffer(*bufPtr)`; `WriteToSession(conn, b, …)`: for every
+pooled array (any residue, any length of the pooled slice) the datagram is the packed response. -/
+theorem resp_udp_own_bytes (arr : Bytes) (len : Nat) (msg : Bytes) :
+    (packUDP arr len msg).1 = msg := packBuffer_take arr len msg
+
+/-- **resp_prefixed_own_bytes.**  `packWithPrefix` (TCP, DoT, DoQ): for every pooled array the bytes
+written are the 2-byte length followed by the packed response — also when `PackBuffer` or
+`slices.Grow` had to move to a new array, and although the message is shifted in place. -/
+theorem resp_prefixed_own_bytes (arr : Bytes) (len : Nat) (msg : Bytes) :
+    (packWithPrefix arr len msg).1 = be16Bytes msg.length ++ msg :=
+  packWithPrefix_written arr len msg
+
+/-- Both response theorems on an array full of another client's response. -/
+example :
+    (packWithPrefix exReplyOld 40 [1, 2, 3]).1 = [0, 3, 1, 2, 3] ∧
+    (packWithPrefix exReplyOld 2 [1, 2, 3]).1 = [0, 3, 1, 2, 3] ∧
+    (packWithPrefix exReplyOld 40 exReplyOld).1 = 0 :: 40 :: exReplyOld ∧
+    (packUDP exReplyOld 40 [1, 2, 3]).1 = [1, 2, 3] := by decide
+
 #print axioms decode_own_bytes
 #print axioms history_unobservable
 #print axioms histories_indistinguishable
@@ -173,5 +288,11 @@ example :
 #print axioms doq_old_leaks_question
 #print axioms upstream_old_counterexample
 #print axioms upstream_old_leaks_answer
+#print axioms inflight_reject
+#print axioms inflight_own_bytes
+#print axioms inflight_equals_fresh
+#print axioms early_put_counterexample
+#print axioms resp_udp_own_bytes
+#print axioms resp_prefixed_own_bytes
 
 end Agd.Buffers
